@@ -78,7 +78,7 @@ func main() {
 		os.Exit(0)
 	case "run":
 		// artsym run <harness> [params...]
-		eng, err := LoadEngine("")
+		eng, err := LoadEngine(os.Getenv("VERIF_GOARCH"))
 		if err != nil {
 			fmt.Fprintln(os.Stderr, "load:", err)
 			os.Exit(2)
